@@ -14,6 +14,9 @@ func init() {
 		ruleDef{"C07.R2", c07r2},
 		ruleDef{"C07.R3", c07r3},
 		ruleDef{"C07.R4", c07r4},
+		// lower bound of the window: the header is rendered for each request when it is forwarded, never remembered from an earlier one
+		ruleDef{"C07.R5", func(r *R) { injectedValueProvenance(r, "C07.R5") }},
+		ruleDef{"C07.R6", func(r *R) { lockNotReentered(r, "C07.R6", false) }},
 	)
 }
 
@@ -315,4 +318,62 @@ func sliceProvenanceDefect(c *Ctx, v ssa.Value, field string, depth int, seen ma
 		return sliceProvenanceDefect(c, x.X, field, depth+1, seen, sliced)
 	}
 	return ""
+}
+
+// lockNotReentered: while a function of the product holds a mutex (read or write), it does not call — directly or
+// through same-module callees — code that acquires the same mutex again. sync.RWMutex read locks are not re-entrant:
+// a writer queued between the two RLock calls blocks the second one forever, and with it the connection's serve loop.
+func lockNotReentered(r *R, rule string, withTransport bool) {
+	c := r.C
+	nHeld, nCalls := 0, 0
+	for _, fn := range c.Product() {
+		// the HTTP/2 client transport is not on any proxy path (the reverse proxy uses net/http's); only C12 speaks about it
+		if f := c.Pos(fn.Pos()); !withTransport && (strings.HasPrefix(f, "pkg/http2/transport.go") || strings.HasPrefix(f, "pkg/http2/client_conn_pool.go")) {
+			continue
+		}
+		var classOf map[string]string
+		eachInstr(fn, func(i ssa.Instruction) {
+			if call, ok := i.(*ssa.Call); ok {
+				if op, ok := lockOps[calleeName(&call.Call)]; ok && op[0] == '+' {
+					if classOf == nil {
+						classOf = map[string]string{}
+					}
+					classOf[c.Expr(call.Call.Args[0])] = lockClass(c, &call.Call)
+				}
+			}
+		})
+		if classOf == nil {
+			continue
+		}
+		nHeld++
+		held := c.locksHeld(fn)
+		eachInstr(fn, func(i ssa.Instruction) {
+			call, ok := i.(*ssa.Call)
+			if !ok || len(held[i]) == 0 {
+				return
+			}
+			var acqs []lockAcq
+			if op, ok := lockOps[calleeName(&call.Call)]; ok {
+				if op[0] != '+' {
+					return
+				}
+				acqs = []lockAcq{{Class: lockClass(c, &call.Call), Mode: op[1:], At: i, Via: funcName(fn)}}
+			} else if g := staticCallee(&call.Call); g != nil && c.inModule(g) {
+				acqs = c.mayAcquire(g, 4, map[*ssa.Function]bool{})
+			} else {
+				return
+			}
+			nCalls++
+			for k, mode := range held[i] {
+				for _, a := range acqs {
+					if a.Class != "" && a.Class == classOf[k] {
+						r.Ob(rule, "lock-reentry:"+funcName(fn)+":"+a.Class).AtI(i, a.At).Fail("%s holds %s (%s) and calls %s, which acquires the same mutex again (%s at %s): a writer queued in between deadlocks both, the connection's goroutines and socket are never released", funcName(fn), k, mode, a.Via, a.Mode, c.Pos(a.At.Pos()))
+					}
+				}
+			}
+		})
+	}
+	o := r.Ob(rule, "lock-reentry:instances")
+	o.Check(nHeld >= 3, "expected >= 3 product functions that take a mutex, found %d", nHeld)
+	o.OK("%d functions take a mutex; %d calls made while holding one were followed (depth 4), none re-acquires the held mutex", nHeld, nCalls)
 }
